@@ -7,6 +7,7 @@ package slug
 
 //@ func (*Packer).validSymlink -> (ok, err)
 //@   pure
+//@   sweep
 //@   replay validSymlink: root=root, path=path, target=target, nallow=len(p.allowSymlinkTargets)
 //@   requires pre.p: p != nil
 //@   ensures C04.lexical.segment: ok && len(p.allowSymlinkTargets) == 0 ==>
@@ -15,6 +16,7 @@ package slug
 //@   guide g: isPlainAbs(root) && isPlainRel(path) && (isDotDotRel(target) || isPlainAbs(target))
 
 //@ func (*Packer).Unpack -> (err)
+//@   sweep
 //@   replay validSymlink: root=dst, path=header.Name, target=header.Linkname, nallow=len(p.allowSymlinkTargets)
 //@   guide g1: isPlainAbs(dst) && len(dst) <= 6 && isPlainAbs(header.Name) && len(header.Name) <= 6 && isDotDotRel(header.Linkname) && len(header.Linkname) <= 16
 //@   guide g2: isPlainAbs(dst) && len(dst) <= 6 && isPlainRel(header.Name) && len(header.Name) <= 6 && (isDotDotRel(header.Linkname) || isPlainAbs(header.Linkname)) && len(header.Linkname) <= 16
@@ -27,3 +29,20 @@ package slug
 //@   invariant loop1 C12.eof.inv1: !$eof
 //@   invariant loop2 C12.eof.inv2: $eof
 //@   ensures C12.eof: err == nil ==> $eof
+
+//@ func (*Packer).Pack -> (meta, err)
+//@   sweep
+//@   requires pre.p: p != nil
+
+//@ func (*Packer).packWalkFn$1 -> (err)
+//@   sweep
+
+//@ func (*Packer).resolveExternalLink -> (r, err)
+//@   sweep
+//@   requires pre.p: p != nil
+
+//@ func parseIgnoreFile -> (r)
+//@   sweep
+
+//@ func matchIgnoreRules -> (r)
+//@   sweep
